@@ -158,7 +158,18 @@ impl DetectProp for C01 {
                 if enc == "ascii" {
                     let bad: Vec<usize> = case.bytes.iter().enumerate().filter(|(_, b)| **b >= 0x80).map(|(i, _)| i).collect();
                     if !bad.is_empty() {
-                        let w = sampled_windows(case.bytes.len(), s);
+                        let mut w = sampled_windows(case.bytes.len(), s);
+                        // a fallback entry (chaos == threshold) comes from a probe that may have given up after
+                        // max(2, steps/4) chunks: only those first windows were certainly examined
+                        if e.chaos().to_bits() == s.thr.to_bits() {
+                            let lazy_tail = if case.bytes.len() > 1_000_000 { 1 } else { 0 };
+                            let steps_n = if case.bytes.len() <= s.chunk.saturating_mul(s.steps) { 1 } else { s.steps };
+                            let certain = 2usize.max(steps_n / 4);
+                            w.truncate(lazy_tail + certain);
+                            if lazy_tail == 1 {
+                                w.remove(0); // the remainder is not looked at after a give-up
+                            }
+                        }
                         let inside = bad.iter().any(|i| w.iter().any(|(a, b)| a <= i && i < b));
                         let class = if inside { "C01:ascii-nonascii-inside-sampled-chunk" } else { "C01:ascii-nonascii-outside-sampled-chunks" };
                         cx.rep.fail("oracle", class, &format!("ascii reported; {} byte(s) >= 0x80, first at {}", bad.len(), bad[0]), &case.bytes, Some(s), &case.tag);
